@@ -65,6 +65,11 @@ func NewEpochBitmapAllocator(config EpochBitmapConfig) (*EpochBitmapAllocator, e
 		return nil, fmt.Errorf("invalid base network: %w", err)
 	}
 
+	// The address arithmetic below (indexToIP/ipToIndex) is IPv4 only
+	if ipNet.IP.To4() == nil {
+		return nil, fmt.Errorf("base network %s: epoch allocator supports IPv4 only", config.BaseNetwork)
+	}
+
 	// Calculate total IPs
 	ones, bits := ipNet.Mask.Size()
 	if config.PrefixLength < ones || config.PrefixLength > bits {
